@@ -5,12 +5,12 @@
 package c19
 
 import (
-	"strings"
 	"context"
 	"encoding/json"
 	"fmt"
 	"math/big"
 	"sort"
+	"strings"
 	"time"
 
 	eventbus "github.com/jilio/ebu"
